@@ -466,6 +466,7 @@ class SK(object):
         self.generic_eq = 0         # number of ==/!= tests between an abstract float and a number decided by genericity
         self.exact = False          # exact mode: literal initial fills take part in arithmetic as their numbers (symbolic drivers)
         self.text = False           # text mode: strings are concrete (str(), +, join are faithful; an abstract float prints as <label>)
+        self.fork_log = []          # (comparison text, outcome taken) of every comparison the abstraction could not decide on this path
         self.printed = {}           # text mode: printed form of an abstract float -> the token (float() of that text gives the token back)
         self.copies = {}            # id(source list) -> (source, [deep copies made of it]); working-copy discipline (SS1)
         self.stale = []             # (node, index): element of a copied source read after the working copy's element changed
@@ -825,6 +826,7 @@ class SK(object):
                     k = len(self.trace)
                     res = self.decisions[k] if k < len(self.decisions) else True
                     self.trace.append(res)
+                    self.fork_log.append((norm(e)[:80], res))
                     if not res:
                         return False
                     l = r
